@@ -4,6 +4,7 @@ package main
 
 import (
 	"fmt"
+	"go/constant"
 	"go/token"
 	"go/types"
 	"math/big"
@@ -57,7 +58,20 @@ func init() {
 		v := g.freshVal("str", types.Typ[types.String])
 		return []Val{v}
 	}
-	externModels["fmt.Sprintf"] = str
+	externModels["fmt.Sprintf"] = func(f *Frame, instr ssa.Instruction, st *State, args []Val, pos token.Pos) []Val {
+		g := f.g
+		v := g.freshVal("str", types.Typ[types.String])
+		// a constant format that starts with a literal character yields a non-empty string
+		if ci, ok := instr.(ssa.CallInstruction); ok && len(ci.Common().Args) > 0 {
+			if c, ok := ci.Common().Args[0].(*ssa.Const); ok && c.Value != nil && c.Value.Kind() == constant.String {
+				if fs := constant.StringVal(c.Value); len(fs) > 0 && fs[0] != '%' {
+					g.assume(boolLit(true), tCmp(">=", app("strlen", SInt, v.Comps[0]), intLit(1)))
+					g.assume(boolLit(true), tNot(tEq(v.Comps[0], g.strLit(""))))
+				}
+			}
+		}
+		return []Val{v}
+	}
 	externModels["fmt.Sprint"] = str
 	externModels["fmt.Sprintln"] = str
 	externModels["bytes.Equal"] = func(f *Frame, instr ssa.Instruction, st *State, args []Val, pos token.Pos) []Val {
